@@ -16,6 +16,7 @@ REPLAY_BIN = os.path.join(VERIF, ".build", "replay", "debug", "h3-verif-replay")
 
 SPECS = {
     # property -> list of (spec name, module, tiers)
+    "C04": [("c04_control_stream_rules", "c04")],
     "C05": [("c05_interleavings", "c05")],
     "C08": [("c08_goaway_rules", "c08")],
 }
